@@ -55,8 +55,9 @@ def ev_wire(x):
 # ------------------------------------------------------------------ real side
 
 class Runner:
-    def __init__(self, mode, cfg, coroutine_handlers=False, manager=None, server_opts=None):
+    def __init__(self, mode, cfg, coroutine_handlers=False, manager=None, server_opts=None, active=False):
         self.mode = mode
+        self.active = active
         self.cfg = cfg
         opts = dict(always_connect=cfg['alwaysConnect'], async_handlers=cfg['asyncHandlers'],
                     namespaces=('*' if cfg['served'] == '*' else list(cfg['served'])))
@@ -92,6 +93,19 @@ class Runner:
             return lst[i]
         return {'connect': 'accept', 'event': {'ret': None}, 'disconnect': 'ok'}[kind]
 
+    def _active_plan(self, slot, kind, args):
+        """what an 'active' handler does besides returning: emit to the client it was called for"""
+        if not self.active or kind == 'connect':
+            return None
+        pos = sid_position(slot)
+        if len(args) <= pos or not isinstance(args[pos], str):
+            return None
+        n = self.counters['connect'] + self.counters['event'] + self.counters['disconnect']
+        if n % 3 != 0:
+            return None
+        ns = slot[1] if slot[1] != '*' else (args[pos - 1] if pos >= 1 and isinstance(args[pos - 1], str) else '/')
+        return {'event': 'bye' if kind == 'disconnect' else 'note', 'data': {'n': n}, 'to': args[pos], 'namespace': ns}
+
     def _invoked(self, slot, kind, args):
         args = [a for a in args if not (isinstance(a, dict) and 'verif.tid' in a)]
         self.records.append(('invoke', slot, list(args)))
@@ -115,9 +129,15 @@ class Runner:
     def _mk(self, slot, kind):
         if self.coro:
             async def h(*args):
+                plan = self._active_plan(slot, kind, [a for a in args if not (isinstance(a, dict) and 'verif.tid' in a)])
+                if plan:
+                    await self.sio.emit(plan['event'], plan['data'], to=plan['to'], namespace=plan['namespace'])
                 return self._invoked(slot, kind, args)
         else:
             def h(*args):
+                plan = self._active_plan(slot, kind, [a for a in args if not (isinstance(a, dict) and 'verif.tid' in a)])
+                if plan and not self.w.is_async:
+                    self.sio.emit(plan['event'], plan['data'], to=plan['to'], namespace=plan['namespace'])
                 return self._invoked(slot, kind, args)
         return h
 
@@ -189,9 +209,15 @@ class Runner:
                     async def cb(*args, tok=tok):
                         self.records.append(('callback', tok, list(args)))
                         await asyncio.sleep(0)        # a suspension point inside the application callback
+                        if tok % 3 == 2:
+                            self.records.append(('callback_raised', tok))
+                            raise HandlerError('scripted callback failure')
                 else:
                     def cb(*args, tok=tok):
                         self.records.append(('callback', tok, list(args)))
+                        if tok % 3 == 2:
+                            self.records.append(('callback_raised', tok))
+                            raise HandlerError('scripted callback failure')
                 kw['callback'] = cb
             res = w.api('emit', op['ev'], copy.deepcopy(op['data']), namespace=op['ns'], **kw)
         elif kind == 'call':
@@ -242,16 +268,21 @@ class Runner:
 
     def _session_block(self, op):
         sid = self.real(op['sid'])
+        boom = op.get('raise_inside')
         if self.w.is_async:
             async def blk():
                 async with self.sio.session(sid, namespace=op['ns']) as s:
                     s[op['k']] = copy.deepcopy(op['v'])
+                    if boom:
+                        raise HandlerError('application code raises inside the session block')
                     return copy.deepcopy(s)
             return self.w.run(blk)
 
         def blk():
             with self.sio.session(sid, namespace=op['ns']) as s:
                 s[op['k']] = copy.deepcopy(op['v'])
+                if boom:
+                    raise HandlerError('application code raises inside the session block')
                 return copy.deepcopy(s)
         return self.w.run(blk)
 
@@ -368,6 +399,8 @@ class Runner:
                 obs['callbacks'].append((r[1], self._canon(r[2])))
             elif r[0] == 'handler_raised':
                 obs['handler_raised'] += 1
+            elif r[0] == 'callback_raised':
+                obs['callback_raised'] = obs.get('callback_raised', 0) + 1
         if res[0] == 'exc':
             obs['exc'] = res[1]
         elif res[1] is not None and op['op'] in ('rooms', 'get_session', 'session_block', 'call'):
@@ -617,6 +650,10 @@ def compare(op, impl, model):
     elif k in ('rooms',):
         if impl['exc'] or sorted(impl['result'] or []) != sorted(model['result'] or []):
             diffs.append('rooms(): impl=%r/%r model=%r' % (impl['result'], impl['exc'], model['result']))
+    elif k == 'session_block' and op.get('raise_inside') and not model['raised']:
+        # the block raised after mutating the session: the exception passes through, the session is saved
+        if impl['exc'] != 'HandlerError':
+            diffs.append('session() block: the application exception did not pass through: %r' % (impl['exc'],))
     elif k in ('get_session', 'session_block', 'save_session', 'enter', 'leave', 'close', 'disconnect', 'emit'):
         if bool(impl['exc']) != model['raised']:
             diffs.append('%s: impl exc=%r model raised=%r' % (k, impl['exc'], model['raised']))
@@ -625,6 +662,8 @@ def compare(op, impl, model):
     elif k in ('frame', 'frameval', 'burst'):
         # exceptions escaping the message handler are contained (and logged) by engine.io
         ir = impl['raised'] or impl['handler_raised'] > 0
+        if impl.get('callback_raised'):
+            ir = model['raised']        # an application callback that raises is contained like a handler; not modelled
         if ir != model['raised']:
             diffs.append('frame: impl contained-error=%r model raised=%r' % (ir, model['raised']))
     return diffs
@@ -635,9 +674,9 @@ def compare(op, impl, model):
 PROBES = {'pre': None, 'post': None}
 
 
-def execute_impl(mode, cfg, ops, coro=False, server_opts=None):
+def execute_impl(mode, cfg, ops, coro=False, server_opts=None, active=False):
     """implementation only: -> (observations, names)"""
-    r = Runner(mode, cfg, coroutine_handlers=coro, server_opts=server_opts)
+    r = Runner(mode, cfg, coroutine_handlers=coro, server_opts=server_opts, active=active)
     try:
         return [r.do(copy.deepcopy(o)) for o in ops], r.names
     finally:
